@@ -2,8 +2,11 @@ import MsqProofs.Lemmas.TRest3
 /-!
 # C03 / C01 — T-parse for the remaining statement classes, and ONE theorem over the union of all statement fragments
 
-Built NEXT to Props/C03Q2.lean (queries, `TQ2`), Props/C03D.lean (data-change statements and WITH, `TDM`) and Props/C18T.lean (CREATE TABLE,
-`TD`), all unchanged; definitions in Lemmas/TRest0.lean (namespace `TR`), proofs in Lemmas/TRest1–3.lean.
+Built NEXT to Props/C03Q2.lean (queries, `TQ2`), Props/C03D.lean (data-change statements and WITH over `FragQ`, `TDM`) and Props/C18T.lean
+(CREATE TABLE, `TD`), all unchanged; definitions in Lemmas/TRest0.lean (namespace `TR`), proofs in Lemmas/TRest1–3.lean.  The data-change
+development is LIFTED to the larger query fragment: Lemmas/TDmlQ0–4.lean (namespace `TDM2`, generated from TDml0–4 by
+tools/dev/gen_tdml2.py: `FragE3 → FragE4`, `FragQ → FragQ2`, the finer clause numbering `Bd4`, six hand patches), and
+Lemmas/TDmlQI.lean proves `TDM.FragStmt ⊆ TDM2.FragStmt` with equal renderings.
 
 **New classes** — fragment `TR.FragRest d s`, token printer `TR.toksRest d s` (mirrors `PR.prStmt`; `#guard`s below check
 `lex (prStmt d s) = toksRest d s` for every class in MYSQL and HIVE):
@@ -22,11 +25,13 @@ Built NEXT to Props/C03Q2.lean (queries, `TQ2`), Props/C03D.lean (data-change st
   MySQL rendering does not state them (see the note on the information loss at the end);
 * `SHOW COLUMNS FROM t [alias], … [WHERE e]`: tables (also derived tables) and filter of the larger query fragment (`TQ2.fromOK4`, `TQ2.FragO4`);
   the model (and the parser) has no second `FROM db`;
-* `CREATE TABLE t AS <query>`: a query of `FragQ2`, or `WITH name AS (q), …` in front of a query of `FragQ` (`TR.selOK`; `_parse_select_statement`
-  finds the WITH clause itself there).
+* `CREATE TABLE t AS [WITH name AS (q), …] <query of FragQ2>` (`TR.selOK`; `_parse_select_statement` finds the WITH clause itself there:
+  `TR.with_query_select2`).
 
-**The union** `TR.FragAny d s` = a query of `FragQ2` ∨ a statement of `TDM.FragStmt` (DELETE / UPDATE / INSERT / WITH … over `FragQ`) ∨ a
-CREATE TABLE of `TD.FragCreate` ∨ `FragRest`; printer `TR.toksAny`; continuation `TR.stopsAny d rest`: empty, or a head with source `;`
+**The union** `TR.FragAny d s` = a query of `FragQ2` ∨ a statement of `TDM2.FragStmt` (DELETE / UPDATE / INSERT / WITH … over `FragQ2` and
+`FragE4`: window functions, CAST, GROUPING SETS, LATERAL VIEW … inside data-change statements and under WITH; it contains
+`TDM.FragStmt`, the same over `FragQ`, with the same rendering: `C03.fragStmt_sub_fragStmt2`, `fragAny_of_fragStmt`) ∨ a CREATE TABLE of
+`TD.FragCreate` ∨ `FragRest`; printer `TR.toksAny`; continuation `TR.stopsAny d rest`: empty, or a head with source `;`
 that continues nothing (`sa_nil`, `sa_semi`); `TR.restAfter s rest`: CREATE TABLE swallows one `;` itself (`parser.py:2017`, C10), every
 other statement leaves it to the loop.
 
@@ -34,12 +39,14 @@ other statement leaves it to the loop.
 * `C03.tstatement_rest`, and by class `talter`, `tdrop_table`, `ttruncate`, `tmsck`, `tuse`, `tset`, `tanalyze`, `tshow_columns`,
   `tcreate_table_as`; slot corollaries `alter_slots` (the clauses in order, each with its kind and arguments), `alter_clause`
   (`_parse_alter_expression` on one clause), `analyze_slots`, `set_slots`, `show_columns_slots`;
+* `C03.tstatement2` : `C03.tstatement` (Props/C03D.lean) over the larger fragment; `C03.fragStmt_sub_fragStmt2`;
 * `C03.tstatement_any` : `FragAny d s → stopsAny d rest → 20 * sizeL (toksAny d s) + 16 ≤ fuel →
   pStatement d fuel (toksAny d s ++ rest) = ok (s, restAfter s rest)`; `tstatement_any_entry_fuel`;
 * `C03.tscript_any` : the renderings of ANY list of fragment statements joined by `;` (with / without a final one) parse, through
   `parse_statements`' loop with the entry point's own fuel, to exactly that list; `tscript_any_loop` (explicit fuels);
 * `C01.statement_round_trip_tokens_any`; `C03.rendering_determines_statement_any`.
-Not covered: the restrictions of the component fragments; the DML statements over `FragQ2` (they are stated over `FragQ`).
+Not covered: the restrictions of the component fragments (a WITH clause inside a sub-query or a WITH body, bracketed SELECTs as branches
+of a set operation, …); the accounting theorem `C08.dml_accounted` stays over `TDM.FragStmt`.
 -/
 set_option linter.unusedVariables false
 set_option linter.unusedSimpArgs false
@@ -109,7 +116,7 @@ def analyzeOf : Stmt → Option (TableName × Option (List Expr) × Bool × Bool
 /-- **ANALYZE TABLE (Hive rendering): the partition list and each of the three flags from its own words** -/
 theorem analyze_slots (t : TableName) (p : Option (List Expr)) (fc cm ns : Bool) (hs : FragRest .HIVE (.analyze t p fc cm ns) = true)
     (rest : List Tok) (hr : stopsAny .HIVE rest = true) (fuel : Nat) (hfuel : 20 * sizeL (toksAnalyze .HIVE t p fc cm ns) + 16 ≤ fuel) :
-    ∃ s, pStatement .HIVE fuel (opTok "ANALYZE" :: opTok "TABLE" :: tbl t :: (TDM.toksPart .HIVE noX p ++ (opTok "COMPUTE" :: opTok "STATISTICS" ::
+    ∃ s, pStatement .HIVE fuel (opTok "ANALYZE" :: opTok "TABLE" :: tbl t :: (TDM2.toksPart .HIVE noX p ++ (opTok "COMPUTE" :: opTok "STATISTICS" ::
         (TD.flag fc [opTok "FOR", opTok "COLUMNS"] ++ (TD.flag cm [opTok "CACHE", opTok "METADATA"] ++ (TD.flag ns [opTok "NOSCAN"] ++ rest)))))) =
         .ok (s, rest) ∧ analyzeOf s = some (t, p, fc, cm, ns) := by
   refine ⟨.analyze t p fc cm ns, ?_, rfl⟩
@@ -137,6 +144,22 @@ theorem show_columns_slots (d : Gen.D) (fr : List FromTable) (wh : Option Expr) 
   have := tshow_columns d fr wh hs rest hr fuel hfuel
   simpa [toksShowColumns] using this
 
+/-! ### data-change statements over the larger query fragment -/
+/-- **T-parse, data-change statements over `FragQ2` / `FragE4`** (`C03.tstatement` lifted): DELETE, UPDATE, INSERT … VALUES, INSERT … query,
+a query, the last four with an optional WITH clause — expressions and queries of the LARGER fragment -/
+theorem tstatement2 (d : Gen.D) (s : Stmt) (hs : TDM2.FragStmt d s = true) (rest : List Tok) (hr : TDM2.stopsStmt d rest = true)
+    (fuel : Nat) (hfuel : 20 * sizeL (TDM2.toksStmt d s) + 16 ≤ fuel) : pStatement d fuel (TDM2.toksStmt d s ++ rest) = .ok (s, rest) :=
+  TDM2.stmt_ok TQ2.chOK_noX (d == .HIVE) s hs rest hr fuel hfuel
+/-- the same with redundant brackets inside expressions and the optional word `TABLE` written or not -/
+theorem tstatement2_ch (d : Gen.D) (ch : Expr → Bool) (hch : TQ2.ChOK d ch) (tb : Bool) (s : Stmt) (hs : TDM2.FragStmt d s = true)
+    (rest : List Tok) (hr : TDM2.stopsStmt d rest = true) (fuel : Nat) (hfuel : 20 * sizeL (TDM2.toksStmtG d ch tb s) + 16 ≤ fuel) :
+    pStatement d fuel (TDM2.toksStmtG d ch tb s ++ rest) = .ok (s, rest) :=
+  TDM2.stmt_ok hch tb s hs rest hr fuel hfuel
+/-- **`TDM.FragStmt ⊆ TDM2.FragStmt`** with equal renderings (any redundant brackets, `TABLE` written or not): `C03.tstatement` is an
+instance of `C03.tstatement2` -/
+theorem fragStmt_sub_fragStmt2 (d : Gen.D) (ch : Expr → Bool) (tb : Bool) (s : Stmt) (hs : TDM.FragStmt d s = true) :
+    TDM2.FragStmt d s = true ∧ TDM2.toksStmtG d ch tb s = TDM.toksStmtG d ch tb s := TDM2.fragStmt_sub d ch tb s hs
+
 /-! ### the union of all statement fragments -/
 /-- **T-parse, every statement class.**  One iteration of the loop of `parse_statements` on the token rendering of ANY statement of
 the union fragment — a query (`FragQ2`), DELETE / UPDATE / INSERT / WITH … (`TDM.FragStmt`), CREATE TABLE (`TD.FragCreate`), or one of
@@ -148,6 +171,12 @@ theorem tstatement_any (d : Gen.D) (s : Stmt) (hs : FragAny d s = true) (rest : 
 theorem tstatement_any_entry_fuel (d : Gen.D) (s : Stmt) (hs : FragAny d s = true) (rest : List Tok) (hr : stopsAny d rest = true) :
     pStatement d (fuelFor (toksAny d s ++ rest)) (toksAny d s ++ rest) = .ok (s, restAfter s rest) :=
   tstatement_any d s hs rest hr _ (by simp only [fuelFor, C10.sizeL_append]; omega)
+/-- the union contains the data-change fragment of Props/C03D.lean, with its rendering -/
+theorem fragAny_of_fragStmt (d : Gen.D) (s : Stmt) (hs : TDM.FragStmt d s = true) : FragAny d s = true ∧ toksAny d s = TDM.toksStmt d s :=
+  any_of_fragStmt s hs
+/-- … and the queries of `FragQ2`, with their rendering -/
+theorem fragAny_of_fragQ2 (d : Gen.D) (q : Query) (hq : TQ2.FragQ2 d q = true) :
+    FragAny d (.select q) = true ∧ toksAny d (.select q) = TQ2.toksQ2 d noX q := any_of_fragQ2 q hq
 theorem restAfter_nil (s : Stmt) : restAfter s [] = [] := by cases s <;> rfl
 /-- the two continuations the statement loop produces -/
 theorem stopsAny_nil (d : Gen.D) : stopsAny d [] = true := rfl
@@ -257,6 +286,17 @@ def ca3 : Stmt := match C03.Dml.w1 with | .select q => .createTableAs (tn "t") q
   [.select q2w3, C03.Dml.d1, C03.Dml.u2, C03.Dml.i3, C03.Dml.w1, .createTable C18.t1].all (agreesAny .HIVE)
 #guard [.select q2w1, C03.Dml.d1, C03.Dml.u1, C03.Dml.i1, C03.Dml.w1, .createTable C18.t2].all (roundTripsAny .MYSQL) &&
   [.select q2w3, C03.Dml.d1, C03.Dml.i3, C03.Dml.w2, .createTable C18.t1].all (roundTripsAny .HIVE)
+/-- data-change statements over the LARGER fragment: INSERT … a query with window functions / CAST / EXTRACT; UPDATE with CAST, an array index
+and a window-free IF; DELETE with EXTRACT; WITH over a query with USING / GROUPING SETS; INSERT … VALUES with CAST -/
+def l1 : Stmt := .insertSelect (C03.Dml.ih "INSERT_INTO" (tn "t")) q2w1
+def l2 : Stmt := .update (some []) (tn "t") [("a", .cast (col "b") false "DECIMAL" (some [10, 2])), ("c", .func none "IF" [eqp "a" "1", lit "1", lit "2"])]
+  (some (.compare "GT" (.extract (col "year") (col "ts")) (lit "2000"))) none none
+def l3 : Stmt := .delete (tn "t") (some (.compare "EQ" (.index (col "m") (lit "'k'")) (lit "1"))) none none
+def l4 : Stmt := .select (.single (.mk (some [.mk "x" q2w2, .mk "y" q2w3]) false [(.wildcard none, none)] (some [tb "x"]) [] [] none none none none none none none none))
+def l5 : Stmt := .insertValues (C03.Dml.ih "INSERT_OVERWRITE" (tn "t") (some [eqp "dt" "'1'"])) [[.cast (lit "1") true "INT" none, lit "2"]]
+def l6 : Stmt := .createTableAs (tn "t") (match l4 with | .select q => q | _ => qa)
+#guard [l1, l2].all (agreesAny .MYSQL) && [l1, l2, l3, l4, l5, l6].all (agreesAny .HIVE) && [l1, l2, l3, l4, l5, l6].all (roundTripsAny .HIVE) &&
+  [l1, l2, l3, l4, l5, l6].all (roundTripsAny .MYSQL) && !TDM.FragStmt .HIVE l1 && !TDM.FragStmt .HIVE l2 && !TDM.FragStmt .HIVE l4
 -- what may follow a statement of the union: the end, a `;`; nothing else
 #guard stopsAny .MYSQL (lexed "; SELECT 2") && stopsAny .HIVE [] && !stopsAny .MYSQL (lexed "SELECT 2") && !stopsAny .MYSQL (lexed ", x") &&
   !stopsAny .MYSQL (lexed ". x")
